@@ -110,6 +110,8 @@ type TermBank struct {
 	funcs map[string]*FuncDecl // declared / defined functions
 	forder []string
 	kbuf  []byte
+	varAxioms map[string]*Term // defining axioms of canonical array constants
+	defArrs   map[int]*Term
 }
 
 type FuncDecl struct {
@@ -124,7 +126,7 @@ type FuncDecl struct {
 	Deps   []string
 }
 
-var TB = &TermBank{tab: map[string]*Term{}, funcs: map[string]*FuncDecl{}}
+var TB = &TermBank{tab: map[string]*Term{}, funcs: map[string]*FuncDecl{}, varAxioms: map[string]*Term{}, defArrs: map[int]*Term{}}
 
 func (b *TermBank) mk(t *Term) *Term {
 	buf := b.kbuf[:0]
@@ -578,10 +580,130 @@ func BvAnd(a, b *Term) *Term {
 	return bin(OBvAnd, a, b)
 }
 
+// seg describes bits [hi..lo] of a word: either zero or taken from a term.
+type seg struct {
+	hi, lo int
+	t      *Term // nil: zero bits; else a term of width hi-lo+1
+}
+
+// segments decomposes t into zero / non-zero bit ranges (most significant first), or nil.
+func segments(t *Term, depth int) []seg {
+	w := t.S.W
+	switch t.Op {
+	case OConst:
+		if t.Val.Sign() == 0 {
+			return []seg{{w - 1, 0, nil}}
+		}
+	case OZext:
+		iw := t.Args[0].S.W
+		inner := segments(t.Args[0], depth+1)
+		if inner == nil {
+			inner = []seg{{iw - 1, 0, t.Args[0]}}
+		}
+		return append([]seg{{w - 1, iw, nil}}, inner...)
+	case OConcat:
+		if depth > 8 {
+			return nil
+		}
+		lw := t.Args[1].S.W
+		hi := segments(t.Args[0], depth+1)
+		if hi == nil {
+			hi = []seg{{t.Args[0].S.W - 1, 0, t.Args[0]}}
+		}
+		lo := segments(t.Args[1], depth+1)
+		if lo == nil {
+			lo = []seg{{lw - 1, 0, t.Args[1]}}
+		}
+		out := make([]seg, 0, len(hi)+len(lo))
+		for _, s := range hi {
+			out = append(out, seg{s.hi + lw, s.lo + lw, s.t})
+		}
+		return append(out, lo...)
+	}
+	return nil
+}
+
+// mergeDisjoint combines a|b (or a^b, a+b) when no bit position is non-zero in both.
+func mergeDisjoint(a, b *Term) *Term {
+	sa, sb := segments(a, 0), segments(b, 0)
+	if sa == nil || sb == nil {
+		return nil
+	}
+	hasZero := func(ss []seg) bool {
+		for _, s := range ss {
+			if s.t == nil {
+				return true
+			}
+		}
+		return false
+	}
+	if !hasZero(sa) || !hasZero(sb) {
+		return nil
+	}
+	w := a.S.W
+	// cut points
+	cuts := map[int]bool{0: true, w: true}
+	for _, s := range sa {
+		cuts[s.lo] = true
+		cuts[s.hi+1] = true
+	}
+	for _, s := range sb {
+		cuts[s.lo] = true
+		cuts[s.hi+1] = true
+	}
+	pick := func(ss []seg, hi, lo int) (*Term, bool) {
+		for _, s := range ss {
+			if s.lo <= lo && hi <= s.hi {
+				if s.t == nil {
+					return nil, true
+				}
+				return Extract(s.t, hi-s.lo, lo-s.lo), true
+			}
+		}
+		return nil, false
+	}
+	var pts []int
+	for c := range cuts {
+		pts = append(pts, c)
+	}
+	sort.Ints(pts)
+	var res *Term
+	for i := len(pts) - 1; i > 0; i-- {
+		hi, lo := pts[i]-1, pts[i-1]
+		ta, oka := pick(sa, hi, lo)
+		tb, okb := pick(sb, hi, lo)
+		if !oka || !okb {
+			return nil
+		}
+		var piece *Term
+		switch {
+		case ta == nil && tb == nil:
+			piece = BVU(0, hi-lo+1)
+		case ta == nil:
+			piece = tb
+		case tb == nil:
+			piece = ta
+		default:
+			return nil
+		}
+		if res == nil {
+			res = piece
+		} else {
+			res = Concat(res, piece)
+		}
+	}
+	return res
+}
+
 func BvOr(a, b *Term) *Term {
 	w := a.S.W
 	if a.IsConst() && b.IsConst() {
 		return BVC(new(big.Int).Or(a.Val, b.Val), w)
+	}
+	if !a.IsConst() && !b.IsConst() {
+		if m := mergeDisjoint(a, b); m != nil {
+			return m
+		}
 	}
 	if a.IsConst() {
 		a, b = b, a
@@ -1297,6 +1419,30 @@ func Script(asserts []*Term, getVals []*Term, opaque map[string]bool) string {
 	for _, a := range all {
 		visit(a)
 	}
+	// defining axioms of canonical arrays that occur (transitively)
+	doneAx := map[string]bool{}
+	for changed := true; changed; {
+		changed = false
+		var vnames []string
+		for n := range vars {
+			vnames = append(vnames, n)
+		}
+		sort.Strings(vnames)
+		for _, n := range vnames {
+			if ax, ok := TB.varAxioms[n]; ok && !doneAx[n] {
+				doneAx[n] = true
+				changed = true
+				collectApps(ax, addFn)
+				for len(pendingAx) > 0 {
+					pa := pendingAx[0]
+					pendingAx = pendingAx[1:]
+					_ = pa
+				}
+				visit(ax)
+				all = append(all, ax)
+			}
+		}
+	}
 	for _, g := range getVals {
 		visit(g)
 	}
@@ -1445,4 +1591,18 @@ func Fresh(prefix string, s Sort) *Term {
 func FreshBound(prefix string, s Sort) *Term {
 	freshCtr++
 	return Bound(fmt.Sprintf("%s!b%d", prefix, freshCtr), s)
+}
+
+// DefArr returns the canonical array constant a with (forall k. a[k] = body(k)).
+// Two requests with the same definition yield the same constant.
+func DefArr(w int, k *Term, body *Term) *Term {
+	ck := Bound("K!c", BV(64))
+	cb := Subst(body, map[int]*Term{k.id: ck})
+	if a, ok := TB.defArrs[cb.id]; ok && a.S.W == w {
+		return a
+	}
+	a := Var(fmt.Sprintf("da!%d", len(TB.defArrs)), Arr(w))
+	TB.defArrs[cb.id] = a
+	TB.varAxioms[a.Name] = Forall([]*Term{ck}, Eq(Select(a, ck), cb))
+	return a
 }
